@@ -42,7 +42,10 @@ RULE = ("hypothesis.stateful rule-based machines over one process: compile / gen
         "with simulator-updated dynamic properties, 1-3 sub-scenarios with 1-3 override "
         "statements each on object properties and behaviors, nesting, parallel and time-limited "
         "invocation, guards, interrupts, monitors, temporal / static requirements, records, "
-        "2D mode).  Fault plans arm one of the sites discovered by the control run (program "
+        "2D mode, time limits in steps or seconds, a simulator that increments chosen "
+        "non-dynamic properties while creating objects, a dynamic property with default None; "
+        "the time step and the type reported for that property vary with the run seed).  "
+        "Fault plans arm one of the sites discovered by the control run (program "
         "sites requirement, setup, compose, behavior, monitor, guard, interrupt condition, "
         "record; simulator sites create, step, getProperties, applyTo) at a reachable hit count "
         "with RuntimeError / RejectionException / RejectSimulationException / GuardViolation.  "
